@@ -22,8 +22,8 @@ import (
 // TestC15Race drives a node as concurrently as the API allows; the oracle is the Go race detector
 // (the binary is built with -race by the driver; a report makes the test fail).
 func TestC15Race(t *testing.T) {
-	rec := evid.New(t, "C15", "maximally concurrent scenarios under the Go race detector: 3..5 channels (custom transports, TCP-server and UDP-server peers), 3..6 API goroutines mixing all six Write* calls, a router goroutine that edits received frames, calls FixFrame and forwards them with WriteFrameExcept, a consumer, heartbeats every 2-5 ms, stream requests triggered by ArduPilot heartbeats from several senders on several channels, peers connecting and leaving, and Close racing with all of it; any DATA RACE report whose stack includes a gomavlib package is a violation; non-trivial = >=2 API goroutines and >=2 channel readers active in overlapping intervals (measured from the harness timeline); distinct by hash of the scenario parameters")
-	rec.Require("overlapping-api-and-readers", "close-racing")
+	rec := evid.New(t, "C15", "maximally concurrent scenarios under the Go race detector: 3..5 channels (custom transports, TCP-server and UDP-server peers), 3..6 API goroutines mixing all six Write* calls, a router goroutine that edits received frames, calls FixFrame and forwards them with WriteFrameExcept, a consumer, heartbeats every 2-5 ms, stream requests triggered by ArduPilot heartbeats from several senders on several channels, peers connecting and leaving (also while Close is under way), rejected input producing parse-error events, a consumer that keeps the last events and reads them again later, and Close racing with all of it; any DATA RACE report whose stack includes a gomavlib package is a violation; non-trivial = >=2 API goroutines and >=2 channel readers active in overlapping intervals (measured from the harness timeline); distinct by hash of the scenario parameters")
+	rec.Require("overlapping-api-and-readers", "close-racing", "tcp-peer-connecting-during-close", "kept-events-read-again")
 	hbLay, _ := ref.LayoutOf(refTypeOf(&minimal.MessageHeartbeat{}))
 	evid.Check(t, rec, evid.N(60, 250), func(t *rapid.T) {
 		ncustom := rapid.IntRange(2, 3).Draw(t, "ncustom")
@@ -36,7 +36,9 @@ func TestC15Race(t *testing.T) {
 		keyed := rapid.IntRange(0, 3).Draw(t, "keyed") == 0
 		slowConsumer := rapid.IntRange(0, 2).Draw(t, "slow_consumer") == 0
 		leaveBeforeClose := rapid.Bool().Draw(t, "leave_before_close")
-		desc := fmt.Sprintf("custom=%d tcpPeers=%d udpPeers=%d apiGoroutines=%d heartbeat=%v run=%v closeRacing=%v keyed=%v slowConsumer=%v peersLeaveBeforeClose=%v", ncustom, ntcp, nudp, napi, hbPeriod, runFor, closeRacing, keyed, slowConsumer, leaveBeforeClose)
+		lateDials := rapid.SliceOfN(rapid.IntRange(0, 1500), 0, 3).Draw(t, "late_tcp_dials_us") // TCP peers that connect while Close is under way
+		rejectedInput := rapid.Bool().Draw(t, "rejected_input")                                 // frames with a wrong checksum between the valid ones: parse-error events
+		desc := fmt.Sprintf("custom=%d tcpPeers=%d udpPeers=%d apiGoroutines=%d heartbeat=%v run=%v closeRacing=%v keyed=%v slowConsumer=%v peersLeaveBeforeClose=%v tcpDialsDuringClose(us)=%v rejectedInput=%v", ncustom, ntcp, nudp, napi, hbPeriod, runFor, closeRacing, keyed, slowConsumer, leaveBeforeClose, lateDials, rejectedInput)
 
 		pipes := make([]*sim.Pipe, ncustom)
 		var endpoints []gomavlib.EndpointConf
@@ -55,14 +57,34 @@ func TestC15Race(t *testing.T) {
 		if err := n.Initialize(); err != nil {
 			t.Fatalf("BROKEN: %v", err)
 		}
-		var readersActive, apiActive, overlap, routed int32
+		var readersActive, apiActive, overlap, routed, lookedAgain int32
 		// consumer + router
 		var chMu sync.Mutex
 		var chans []*gomavlib.Channel
 		consumerDone := make(chan struct{})
 		go func() {
 			defer close(consumerDone)
+			// the application keeps the last events it received and looks at them again later, as any
+			// application that logs or batches events does
+			var kept [8]gomavlib.Event
+			nkept := 0
 			for ev := range n.Events() {
+				if old := kept[nkept%len(kept)]; old != nil {
+					switch o := old.(type) {
+					case *gomavlib.EventParseError:
+						if o.Error != nil && o.Channel != nil {
+							atomic.AddInt32(&lookedAgain, int32(len(o.Error.Error())&1)+1)
+						}
+					case *gomavlib.EventChannelClose:
+						if o.Error != nil {
+							atomic.AddInt32(&lookedAgain, int32(len(o.Error.Error())&1)+1)
+						}
+					case *gomavlib.EventStreamRequested:
+						atomic.AddInt32(&lookedAgain, int32(o.SystemID&1)+1)
+					}
+				}
+				kept[nkept%len(kept)] = ev
+				nkept++
 				if slowConsumer {
 					time.Sleep(500 * time.Microsecond) // events stay pending: channels linger in every intermediate state
 				}
@@ -119,6 +141,12 @@ func TestC15Race(t *testing.T) {
 					f.Checksum = f.ChecksumFor(hbLay.CRCExtra)
 					p.Feed(f.Bytes())
 					p.Feed(tagged(byte(i+1), k, "debug", true, nil, 0).Bytes())
+					if rejectedInput {
+						bad := tagged(byte(i+1), k, "debug", true, nil, 0)
+						bad.Checksum ^= 0x0101
+						p.Feed(bad.Bytes())
+						p.Feed([]byte{0x01, 0x02})
+					}
 					time.Sleep(300 * time.Microsecond)
 				}
 			}(i, p)
@@ -218,6 +246,21 @@ func TestC15Race(t *testing.T) {
 			peersMu.Unlock()
 			time.Sleep(time.Duration(rapid.IntRange(0, 3000).Draw(t, "leave_gap_us")) * time.Microsecond)
 		}
+		for i, us := range lateDials {
+			wg.Add(1)
+			go func(i, us int) {
+				defer wg.Done()
+				time.Sleep(time.Duration(us) * time.Microsecond)
+				p, err := sim.Dial("tcp4", tcpAddr)
+				if err != nil {
+					return // the listener is already gone
+				}
+				peersMu.Lock()
+				peers = append(peers, p)
+				peersMu.Unlock()
+				p.Send(tagged(byte(30+i), 0, "debug", true, nil, 0).Bytes()) //nolint:errcheck
+			}(i, us)
+		}
 		if closeRacing {
 			// Close while everything is still running
 			if _, err := closeNode(n, bound); err != nil {
@@ -246,6 +289,12 @@ func TestC15Race(t *testing.T) {
 		}
 		if closeRacing {
 			cls = append(cls, "close-racing")
+		}
+		if len(lateDials) > 0 {
+			cls = append(cls, "tcp-peer-connecting-during-close")
+		}
+		if rejectedInput && atomic.LoadInt32(&lookedAgain) > 0 {
+			cls = append(cls, "kept-events-read-again")
 		}
 		rec.Case(nt, evid.HashS(desc), cls...)
 		if nt && rec.WantSample("scenario") {
